@@ -46,6 +46,18 @@ def history_step(rng, h, lang, names, ops, kind):
                     lang.parse(f"({d[0]} : {names[d[3][1]]}({', '.join([b] * len(d[3][2]))}))").fix()
                 else:
                     lang.parse(f"({d[0]} : {b})").fix()
+        elif kind == "use_wild":
+            # an operator applied to a source whose annotation leaves a parameter open: `f (- : K(_))`
+            fs = [o for o in ops if o[2] and any(p_[0] == "o" and p_[2] for p_ in o[2])]
+            if fs:
+                f = rng.choice(fs)
+                tree, inner = ("op", f[0]), {}
+                for p_ in f[2]:
+                    a = c04.gen_expr(rng, h, ops, p_, 0, 0, inner)
+                    if a[0] == "src" and a[1] is not None and a[1][0] == "o" and a[1][2] and not c04.has_hole(a[1]):
+                        a = ("src", c04.punch_hole(rng, a[1]))
+                    tree = ("app", tree, a)
+                lang.parse(c04.render(tree, names)).fix()
         elif kind == "use_op":
             # use one operator once, with arguments made for its parameters
             f = rng.choice([o for o in ops if o[2]])
@@ -87,7 +99,7 @@ def history_step(rng, h, lang, names, ops, kind):
         pass
 
 
-KINDS = ["parse", "parse", "parse", "parsefail", "parsefail", "use_data", "use_op", "use_op", "validate", "print", "instantiate",
+KINDS = ["parse", "parse", "parse", "parsefail", "parsefail", "use_data", "use_op", "use_op", "use_wild", "validate", "print", "instantiate",
          "apply", "parse_type", "graph", "vocab", "query"]
 
 
@@ -261,6 +273,19 @@ def main(tier: str, seed: int, replay: str | None = None) -> int:
                     tree = ("app", tree, c04.gen_expr(rng, h, ops, p_, 1, ninputs, inner))
             if tree[0] != "app":
                 continue
+            if rng.random() < 0.25:
+                # the probe leaves a type parameter open somewhere: `- : K(_)`
+                done = [False]
+
+                def open_one(t):
+                    if t[0] == "app":
+                        return ("app", open_one(t[1]), open_one(t[2]))
+                    if (not done[0] and t[0] == "src" and t[1] is not None and t[1][0] == "o" and t[1][2]
+                            and not c04.has_hole(t[1])):
+                        done[0] = True
+                        return ("src", c04.punch_hole(rng, t[1]))
+                    return t
+                tree = open_one(tree)
             # a history on the shared language, then the probe
             hist = [rng.choice(KINDS) for _ in range(rng.randint(1, 12))]
             for k in hist:
